@@ -131,10 +131,11 @@ def _slots(params, origin, path, out, st):
                     c += d.itemsize
                 cur = c
             elif isinstance(d, D.DtcDop):
-                # a DTC-DOP is placed like the integer it carries (identical conversion only); which integers are described
-                # DTCs is decided by D.effective_dtcs (own DTCs, DTC-REFs, DTCs inherited through LINKED-DTC-DOPS)
+                # a DTC-DOP is placed like the integer it carries (the coded value; trouble code = coded value (IDENTICAL) or its exact
+                # integer LINEAR image, D.dtc_compu_simple); which trouble codes are described DTCs is decided by D.effective_dtcs
+                # (own DTCs, DTC-REFs, DTCs inherited through LINKED-DTC-DOPS)
                 if t != "value" or not isinstance(d.dct, D.Std) or d.dct.condensed or d.dct.mask is not None \
-                        or d.dct.bt != "A_UINT32" or d.dct.enc not in (None, "NONE") or not isinstance(d.compu, D.Identical):
+                        or d.dct.bt != "A_UINT32" or d.dct.enc not in (None, "NONE") or not D.dtc_compu_simple(d):
                     raise Unsupported("dtc-dop")
                 s = Slot(path + (p.name,), pos, bp, d.dct.bitlen, numeric_order(d.dct), "value", p, dct=d.dct, dop=d)
                 out.append(s)
@@ -221,7 +222,9 @@ def reference_pdu(comp, value, trig=None):
                 v = s.param.default
             if v is None:
                 raise Unsupported("missing value")
-            x = v.code if isinstance(s.dop, D.DtcDop) else to_internal(s.dop, v)
+            x = D.dtc_coded_of_code(s.dop, v.code) if isinstance(s.dop, D.DtcDop) else to_internal(s.dop, v)
+            if x is None or (isinstance(s.dop, D.DtcDop) and not 0 <= x < (1 << s.n)):
+                raise Unsupported("trouble code without coded value")
             if s.dct.mask is not None and isinstance(x, int):
                 x &= s.dct.mask
             raws[s.path] = raw_of_internal(s.dct, x)
@@ -260,8 +263,9 @@ def value_of_raws(comp, sl, raws, trig=None):
             return None
         if isinstance(s.dop, D.DtcDop):
             from .sexp import DtcVal
-            if x not in [c for c, _ in D.effective_dtcs(s.dop)]:
-                return None             # not a described DTC: strict decoding refuses it
+            x = D.dtc_code_of_coded(s.dop, x)
+            if x not in [c for c, _ in D.effective_dtcs(s.dop)] or not 0 <= x < (1 << 32):
+                return None             # not a described DTC (or no A_UINT32 value): strict decoding refuses it
             put(s.path, DtcVal(x))
         elif s.dop is not None:
             from .values import canonical_internal
